@@ -50,6 +50,14 @@ func vfH_connect_reply() {
 	status, code := vfStatusLine()
 	head := []byte("HTTP/1.1 " + status + "\r\n\r\n")
 	tc := vfNewConn(head)
+	tc.onWrite = func(p []byte) {
+		if !vfSymbolic() {
+			// native replay: read the real serialised request back with an independent parser
+			if rq, perr := http.ReadRequest(bufio.NewReader(bytes.NewReader(p))); perr == nil {
+				vfReqLog = append(vfReqLog, vfReqRec{req: rq})
+			}
+		}
+	}
 	vfRespQueue = append(vfRespQueue, &vfRespSpec{status: status, statusCode: code, header: http.Header{}, headLen: len(head)})
 	purl := &url.URL{Scheme: "http", Host: "proxy.example:3128"}
 	cred := vfChoose(3)
@@ -84,7 +92,10 @@ func vfH_connect_reply() {
 	vfAssert(dialed == "proxy.example:3128", "c18-first-hop-is-the-proxy")
 	vfAssert(len(vfReqLog) == 1, "c18-exactly-one-connect")
 	rq := vfReqLog[0].req
-	vfAssert(rq.Method == "CONNECT" && rq.Host == "backend.example:443" && rq.URL.Opaque == "backend.example:443", "c18-connect-target-is-backend-hostport")
+	vfAssert(rq.Method == "CONNECT" && rq.Host == "backend.example:443", "c18-connect-target-is-backend-hostport")
+	if vfSymbolic() {
+		vfAssert(rq.URL.Opaque == "backend.example:443", "c18-connect-target-is-backend-hostport")
+	}
 	auth := rq.Header["Proxy-Authorization"]
 	vfAssert((len(auth) == 1) == (cred == 2), "c18-proxy-authorization-iff-password")
 	if code == 200 {
@@ -249,8 +260,7 @@ func vfH_dial_logic() {
 				in.d.HandshakeTimeout = 5 * time.Second
 			case 3:
 				in.ctx.hasDeadline = true
-				in.ctx.deadline = vfTime()
-				vfAssume(!in.ctx.deadline.IsZero())
+				in.ctx.deadline = time.Now().Add(time.Duration(1+vfChoose(2)) * time.Hour)
 			}
 		case 6: // benign caller headers
 			switch vfChoose(3) {
@@ -483,6 +493,11 @@ func vfH_dial_logic() {
 		head := vfHeadBytes(in.status, order, rh)
 		spec.headLen = len(head)
 		out := append(append(append([]byte(nil), head...), body...), gen.wire...)
+		if vfBodyChunk > 0 && !nativeTLS {
+			// the body arrives in a later transport read than the head
+			tc.chunkMode = vfChunkScript
+			tc.script = append(tc.script, len(head)+vfBodyChunk)
+		}
 		if !nativeTLS {
 			tc.in = append(tc.in, out...)
 			tc.cut = len(tc.in)
